@@ -15,9 +15,9 @@ func init() { Runners["C16"] = runC16 }
 func runC16(c *core.Ctx) {
 	const thm = "C16_* (props/C16.v); model ops pq/ps with a limit"
 	c.ReplayKnown()
-	nDocs := 400
+	nDocs := 1500
 	if !c.Quick {
-		nDocs = 6000
+		nDocs = 20000
 	}
 	type doc struct {
 		text   string
